@@ -102,8 +102,8 @@ CHECKS["C06"] = dict(
 CHECKS["C01"] = dict(
     category="proof",
     text="The real XML writer (every *XMLNode builder reached from XMLFileWriter.write_to_file) and the real XML reader (every *Factory reached from XMLFileReader.open) are executed symbolically back to back through the public CommonRoadFileWriter / CommonRoadFileReader on abstract XML trees: a lanelet network (lanelets with relations, adjacency, markings, types, users, stop line with references, traffic sign, traffic light with cycle, intersection), a static obstacle, dynamic obstacles with trajectory and with set-based prediction incl. signal states, phantom and environment obstacles, a planning problem with region / interval goal states, and the scenario meta data, all with symbolic coordinates and values, for decimal precisions 1, 4, 12 (thorough: 1..12). Postcondition: the read objects reproduce the written ones - ids, enums, flags, time steps, populated attributes identical, every real within 10^-d (unset initial-state attributes read back as 0) - discharged by z3 for all values. Further families: one trajectory per state class (PM, KS, KST, ST, STD, MB, ExtendedPM) with every attribute symbolic, trajectory states with interval- and region-valued attributes, an obstacle with a shape group, and EXHAUSTIVE enumeration-member transport (every Tag, TimeOfDay / Weather / Underground member, every LaneletType, RoadUser, LineMarking incl. stop lines, every ObstacleType for static and dynamic obstacles, every TrafficLightState and direction, every traffic sign id of each of the 14 supported countries, through the country table of the reader). Known finding: the virtual flag of traffic signs.",
-    note="float_to_str enters through its contract (plain decimal text, monotone, within 10^-d, truncating outside exponent notation) - checked on real floats only by the bounded layer; XML serialise/parse is the identity on (tag, attributes, text, children) trees; str(float) denotes exactly the float; object collections have small fixed sizes; geometry is concrete in the enumeration-member contracts (symbolic in all others); orientation intervals shorter than 2pi-0.25; information the format does not store (first occurrences, colour list, centre line, lanelet assignment) is excluded",
-    technique="deductive: AST symbolic execution of real writer and reader source on abstract XML trees, round-trip postcondition discharged by z3; float_to_str by contract",
+    note="float_to_str enters the whole-file contracts through its contract (plain decimal text, monotone, within 10^-d, truncating outside exponent notation), and that contract is itself discharged on the real body of float_to_str for a symbolic float (float and numpy.float64) and each decimal precision 1..12 (contracts/c01_f2s.py, 24 contracts) relative to a three-fact text model of str(float) / format(f, '.<d>f') (exponent form <=> f != 0 and (|f| < 1e-4 or |f| >= 1e16); otherwise <digits>.<digits> denoting f; format denotes f rounded to d decimals) - the three facts and the contract are additionally evaluated on real floats by the bounded layer (labelled bounded); XML serialise/parse is the identity on (tag, attributes, text, children) trees; str(float) denotes exactly the float; object collections have small fixed sizes; geometry is concrete in the enumeration-member contracts (symbolic in all others); orientation intervals shorter than 2pi-0.25; information the format does not store (first occurrences, colour list, centre line, lanelet assignment) is excluded",
+    technique="deductive: AST symbolic execution of real writer and reader source on abstract XML trees, round-trip postcondition discharged by z3; float_to_str by callee contract, itself discharged on its body over a text model of str(float)",
     design_ref="5/C01",
 )
 
@@ -126,7 +126,7 @@ CHECKS["C18"] = dict(
 CHECKS["C03"] = dict(
     category="proof",
     text="The document the real XML writer produces (abstract tree, symbolic values; lanelet network with sign / light / intersection / stop line, every obstacle role, planning problems with region / interval goals, location and tags) is validated against content models parsed on every run from the shipped XSD: element order and occurrence (sequence / choice / all with min/maxOccurs), required and undeclared attributes, enumeration values, the lexical class of every number against the XSD type (a text produced by str(float) is in exponent notation exactly for |x| < 1e-4 or |x| >= 1e16, which xs:decimal does not admit - a z3 condition), numeric ranges (positiveInteger, ...) and the id key / idref keyref constraints as z3 conditions over symbolic ids. Additionally EXHAUSTIVE over the enumeration members the schema lists: one valid document per group carrying every schema-listed LaneletType, vehicle type, line marking (bounds and stop lines), obstacle type per role, traffic light colour, environment value and, per country, traffic sign id (20 documents; the same documents validate with lxml's XMLSchema in the native cross-check). Acceptance by the library's own reader is the C01 round trip.",
-    note="also a lanelet with 3-D boundaries some of whose vertices lie at height exactly 0 (every point must carry x, y, z); own XSD validator for the subset of XSD the shipped schema uses (no substitution groups, wildcards, xs:union); float_to_str by contract (plain decimal); one document shape per content group, values symbolic; native replays validate the real file with lxml.XMLSchema",
+    note="also a lanelet with 3-D boundaries some of whose vertices lie at height exactly 0 (every point must carry x, y, z); own XSD validator for the subset of XSD the shipped schema uses (no substitution groups, wildcards, xs:union); float_to_str by contract (plain decimal), the contract discharged on the real body per decimal precision 1..12 over the text model of str(float) (contracts/c01_f2s.py); one document shape per content group, values symbolic; native replays validate the real file with lxml.XMLSchema",
     technique="deductive: AST symbolic execution of the real writer + validation of the abstract tree against XSD content models, lexical-class and range conditions discharged by z3",
     design_ref="5/C03",
 )
